@@ -132,6 +132,60 @@ class ShimFile:
         return False
 
 
+class Excuse:
+    """Callable telling the harness whether an injected fault has fired on this path."""
+    def __init__(self, fn, must_fire=True):
+        self.fn, self.must_fire = fn, must_fire
+
+    def __call__(self):
+        return self.fn()
+
+
+class InjectedIOError(OSError):
+    pass
+
+
+class FaultPlan:
+    """Fault at a SYMBOLIC position k in the sequence of range reads: kind 'exc' (the read raises), 'short'
+    (returns a symbolic shorter length, at least 1 byte missing) or 'empty' (returns nothing).  Optionally a second
+    fault of kind `second` at a later symbolic position."""
+    def __init__(self, E, kind, after_open=True, second=None):
+        self.E, self.kind, self.second = E, kind, second
+        self.k = E.fresh('fault_k', 0)
+        self.k2 = None
+        if second:
+            self.k2 = E.fresh('fault_k2', 0)
+            E.assume(self.k2 > self.k)
+        self.count = 0
+        self.active = not after_open
+        self.fired = False
+        self.excuse = Excuse(lambda: self.fired, must_fire=True)
+
+    def opened(self):
+        self.active = True
+
+    def _apply(self, kind, n, got, tag):
+        self.fired = True
+        if kind == 'exc':
+            raise InjectedIOError("injected I/O failure")
+        if kind == 'empty':
+            return 0
+        s = self.E.fresh('fault_len' + tag, 0)
+        self.E.assume(b_and(s < got, s < n))
+        return s
+
+    def __call__(self, f, pos, n, got):
+        if not self.active:
+            return None
+        idx = self.count
+        self.count += 1
+        if self.k == idx:
+            return self._apply(self.kind, n, got, '')
+        if self.k2 is not None and self.k2 == idx:
+            return self._apply(self.second, n, got, '2')
+        return None
+
+
 class _BlobDownload:
     def __init__(self, data):
         self._data = data
@@ -269,6 +323,8 @@ class ShimFuture:
         self._res = None
 
     def result(self, timeout=None):
+        if not getattr(self, '_done', True):
+            self._pool._drain()
         if self._exc is not None:
             raise self._exc
         return self._res
@@ -284,31 +340,55 @@ class SyncExecutor:
     """concurrent.futures.ThreadPoolExecutor contract: submit() runs the task; an exception raised by the
     task is stored in the future (never propagates unless result() is called); __exit__ waits."""
     submitted = 0
+    order = 'submit'      # 'submit': run at submit; 'reverse': run all queued tasks in reverse order at exit (max_workers > 1 only)
 
     def __init__(self, max_workers=None, **kw):
         self.max_workers = max_workers
         self.futures = []
+        self.pending = []
 
     def __enter__(self):
         return self
 
     def __exit__(self, *a):
+        self._drain()
         return False
 
-    def submit(self, fn, *a, **k):
-        f = ShimFuture()
+    def _run(self, f, fn, a, k):
         try:
             f._res = fn(*a, **k)
         except Exception as e:   # PathAbort is BaseException and propagates
             f._exc = e
+        f._done = True
+
+    def _drain(self):
+        pend, self.pending = self.pending, []
+        for (f, fn, a, k) in reversed(pend):
+            self._run(f, fn, a, k)
+
+    def submit(self, fn, *a, **k):
+        f = ShimFuture()
+        f._pool = self
+        if SyncExecutor.order == 'reverse' and (self.max_workers is None or self.max_workers > 1):
+            f._done = False
+            self.pending.append((f, fn, a, k))
+        else:
+            self._run(f, fn, a, k)
         self.futures.append(f)
         return f
 
-    def map(self, fn, *its):
-        return [fn(*args) for args in zip(*its)]
+    def map(self, fn, *its, timeout=None, chunksize=1):
+        # real contract: tasks are submitted at once; the returned iterator raises a task's exception only when
+        # that result is consumed
+        fs = [self.submit(fn, *args) for args in zip(*its)]
+
+        def results():
+            for f in fs:
+                yield f.result()
+        return results()
 
     def shutdown(self, wait=True, **kw):
-        pass
+        self._drain()
 
 
 class ShimCF:
@@ -316,10 +396,18 @@ class ShimCF:
 
     @staticmethod
     def as_completed(fs, timeout=None):
-        return list(fs)
+        fs = list(fs)
+        for f in fs:
+            if not getattr(f, '_done', True):
+                f._pool._drain()
+        return fs
 
     @staticmethod
     def wait(fs, timeout=None, return_when=None):
+        fs = list(fs)
+        for f in fs:
+            if not getattr(f, '_done', True):
+                f._pool._drain()
         return (set(fs), set())
 
 
